@@ -191,7 +191,14 @@ func run(line string) (out string) {
 	if err != nil {
 		return "ok " + sent + " (unparsable-open)"
 	}
-	r := server.VerifNegotiate(g, n, open)
+	var prev *bgp.BGPMessage
+	if len(ns) > 3 {
+		// an earlier session of the same neighbour, opened by this OPEN
+		if p, err := mkOpen(ns[3]); err == nil {
+			prev = p
+		}
+	}
+	r := server.VerifNegotiate(g, n, open, prev)
 	if r.Notif != nil {
 		return fmt.Sprintf("ok %s (notif %d %d)", sent, r.Notif.ErrorCode, r.Notif.ErrorSubcode)
 	}
